@@ -39,6 +39,8 @@ pub struct Opts {
     /// parties whose clients support the optional extension types X (0xF0F2) / Y (0xF0F3); None = everybody
     pub cap_x: Option<Vec<String>>,
     pub cap_y: Option<Vec<String>>,
+    /// the group lists an external sender (the observer's signing identity) in its ExternalSenders extension
+    pub ext_sender: bool,
 }
 
 impl Default for Opts {
@@ -54,6 +56,7 @@ impl Default for Opts {
             backends: vec![Backend::Openssl],
             cap_x: None,
             cap_y: None,
+            ext_sender: false,
         }
     }
 }
@@ -153,6 +156,8 @@ pub struct World {
     pub joined_with: HashMap<String, Vec<u8>>,
     pub bad_clients: HashMap<String, Client<Cfg>>,
     pub succ: Vec<SuccEntry>,
+    /// signing key and identity of the external sender (observer), when the behaviour uses one
+    pub ext_signer: Option<(mls_rs_core::crypto::SignatureSecretKey, SigningIdentity)>,
 }
 
 pub fn make_client(
@@ -259,6 +264,7 @@ impl World {
             joined_with: HashMap::new(),
             bad_clients: HashMap::new(),
             succ: vec![],
+            ext_signer: None,
         };
         for n in ["bad-expired", "rejected"] {
             let (client, ..) = make_client(n, w.opts.backends[0], &w.opts, &w.rec, None, None);
@@ -268,10 +274,21 @@ impl World {
             p.ident.reject.lock().unwrap().insert(b"rejected".to_vec());
         }
         let gid = w.gid.clone();
+        let mut ctx_ext = ExtensionList::default();
+        crate::replay::EXT_SENDERS.with(|e| *e.borrow_mut() = None);
+        if w.opts.ext_sender {
+            let cs = w.cs(creator);
+            let (sk, pk) = cs.signature_key_generate().map_err(|e| format!("{e:?}"))?;
+            let id = SigningIdentity::new(BasicCredential::new(b"external-sender".to_vec()).into_credential(), pk);
+            let ext = mls_rs::extension::built_in::ExternalSendersExt::new(vec![id.clone()]);
+            ctx_ext.set_from(ext.clone()).map_err(|e| format!("{e:?}"))?;
+            crate::replay::EXT_SENDERS.with(|e| *e.borrow_mut() = Some(ext));
+            w.ext_signer = Some((sk, id));
+        }
         let p = w.parties.get_mut(creator).ok_or("no creator")?;
         let g = p
             .client
-            .create_group_with_id(gid, ExtensionList::default(), ExtensionList::default(), None)
+            .create_group_with_id(gid, ctx_ext, ExtensionList::default(), None)
             .map_err(|e| format!("create_group: {e:?}"))?;
         p.group = Some(g);
         Ok(w)
